@@ -55,6 +55,7 @@ type op struct {
 	Desc  *desc  `json:"desc,omitempty"`
 	Int   int64  `json:"int,omitempty"` // fmt
 	F     *epf   `json:"f,omitempty"`   // conv
+	Mgr   *mcase `json:"mgr,omitempty"` // mgr (stream mgr, see mgr.go)
 }
 
 func hx(s string) string { return common.Hex([]byte(s)) }
@@ -140,6 +141,8 @@ func (o op) line() string {
 		f := o.F
 		return fmt.Sprintf("t2e %s %d %d %d %d %d %d %d %d %s", hx(f.Host), f.Port, f.Timeout, f.Istcp, f.Grid, f.Qos,
 			f.Weight, f.WeightType, f.AuthType, hx(f.SetId))
+	case "mgr":
+		return "variant"
 	case "conv2":
 		f := o.F
 		return fmt.Sprintf("e2t %s %d %d %d %d %d %d %d %d %s %s %s", hx(f.Host), f.Port, f.Timeout, f.Istcp, f.Grid, f.Qos,
@@ -967,7 +970,8 @@ func main() {
 		o.Model = strings.TrimSuffix(o.Model, "tm_wire") + "tm_endpoint"
 	}
 	res := common.NewResult("C18", o)
-	res.Streams = []string{"endpoint"}
+	res.Streams = []string{"endpoint", "mgr"}
+	defer mgrCleanup()
 	rng := o.Rand()
 	m, err := common.StartModel(o.Model, "endpoint")
 	if err != nil {
@@ -983,6 +987,7 @@ func main() {
 		os.Stderr = dn
 	}
 	fatal := func(err error) {
+		mgrCleanup()
 		os.Stderr = realStderr
 		res.Fatal(o.Out, err)
 	}
@@ -1002,6 +1007,9 @@ func main() {
 		}
 		if c.Kind == "desc" && c.Desc == nil {
 			fatal(fmt.Errorf("replay: desc case without description"))
+		}
+		if c.Kind == "mgr" && c.Mgr == nil {
+			fatal(fmt.Errorf("replay: mgr case without script"))
 		}
 		ops = []op{{Kind: "variant"}, c}
 	} else {
@@ -1023,14 +1031,43 @@ func main() {
 			fatal(err)
 		}
 		for k := i; k < j; k++ {
+			if ops[k].Kind == "mgr" {
+				continue
+			}
 			check(ops[k], ans[k-i], res, o.Replay != "" && ops[k].Kind != "variant")
+		}
+	}
+	// stream mgr: the endpoint manager's key sites (network, a few cases)
+	var mcases []*mcase
+	if o.Replay != "" {
+		for _, c := range ops {
+			if c.Kind == "mgr" {
+				mcases = append(mcases, c.Mgr)
+			}
+		}
+	} else {
+		// the fixed script first: one endpoint of every kind, two inactive/active refreshes, three probe rounds
+		mcases = append(mcases, &mcase{Kinds: []int32{1, 0, 2}, Tmo: []int32{3000, 3000, 3000}, Steps: []mstep{{K: "warm"}, {K: "inactive", I: 2},
+			{K: "active", I: 2}, {K: "inactive", I: 0}, {K: "active", I: 0}, {K: "block"}, {K: "probe"}, {K: "probe"}, {K: "inactive", I: 1}, {K: "active", I: 1}, {K: "probe"}}})
+		nm := 4
+		if o.Thorough() {
+			nm = 40
+		}
+		for i := 0; i < nm; i++ {
+			mcases = append(mcases, genMgrCase(rng))
+		}
+	}
+	for _, mc := range mcases {
+		if err := runMgr(mc, m, res, o.Replay != ""); err != nil {
+			fatal(fmt.Errorf("mgr stream: %v", err))
 		}
 	}
 	res.Rule = "cases = endpoint descriptions (protocol x subset of the 9 options x order x spelling -x v/--x v/-x=v/--x=v x blank runs x values " +
 		"incl. int32/int64 boundaries; all orders of 5 (thorough: 9) options) rendered and parsed; malformed strings (all strings <= 3 (thorough 5) over " +
 		"{t,c,p,' ',-,h,1}, all blank strings, single bytes, mutated descriptions, random bytes, non-ASCII blanks, address-list parts); " +
 		"EndpointF/Endpoint values for the conversions; number strings / strings for the re-implemented ParseInt, Fields, %d. " +
-		"non-trivial = distinct input with at least one option (desc) or at least 3 bytes (parse)"
+		"non-trivial = distinct input with at least one option (desc) or at least 3 bytes (parse). Stream mgr: registry-mode endpoint managers with " +
+		"tcp/udp/ssl endpoints driven through warm, block, probe rounds and active/inactive/drop refreshes (1 fixed + 4 (thorough 40) random scripts)"
 	os.Stderr = realStderr
 	if err := res.Write(o.Out); err != nil {
 		panic(err)
